@@ -478,7 +478,7 @@ class EvalMixin:
             v = self.get_attr(st, base, attr)
             if isinstance(v, FuncV):
                 if attr == "create" and base.ci.name in CLASS_KIND:
-                    return [(st, self.mk(st, node, CLASS_KIND[base.ci.name], None, ("new", base.ci.name)))]
+                    return [(st, self.mk(st, node, CLASS_KIND[base.ci.name], None, ("new", base.ci.name, self.ctx(st))))]
                 return self.call_value(st, v, args, kwargs, node, abrupt)
             return [(st, TOP)]
         # unknown receiver: conservative treatment of sensitive API names
@@ -507,6 +507,26 @@ class EvalMixin:
         if g[0] == "call" and g[1] in ("first_task", "next_task") and len(g) > 2:
             return self.is_own(st, Ref(g[2]), depth + 1)
         return False
+
+    def root_ctx(self, st: State, ref, depth: int = 0) -> str:
+        """Call chain at which the root object (the store read / construction it derives from) was created."""
+        if not isinstance(ref, Ref) or depth > 6:
+            return ""
+        o = st.objs.get(ref.oid)
+        if o is None or not o.origin:
+            return ""
+        g = o.origin
+        if g[0] == "call" and len(g) > 3 and g[1] in ("retrieve_stage", "retrieve", "retrieve_execution_summary"):
+            return str(g[3])
+        if g[0] == "new" and len(g) > 2:
+            return str(g[2])
+        if g[0] in ("iter", "attr"):
+            return self.root_ctx(st, Ref(g[1]), depth + 1)
+        if g[0] == "call" and len(g) > 2 and isinstance(g[2], str) and g[2] in st.objs:
+            return self.root_ctx(st, Ref(g[2]), depth + 1)
+        if g[0] == "param":
+            return "<param>"
+        return ""
 
     def own_statuses(self, st: State) -> tuple:
         out = []
@@ -544,7 +564,7 @@ class EvalMixin:
                 o = st.objs[obj.oid]
                 sv = o.get("status")
                 info = {"oid": obj.oid, "status": sv.members if isinstance(sv, StatusV) else self.ALL, "origin": o.origin, "okind": o.kind,
-                        "own": self.is_own(st, obj)}
+                        "own": self.is_own(st, obj), "fresh_ctx": self.root_ctx(st, obj)}
             # a failed CAS raises ConcurrencyError (explicit exception edge)
             s_fail = st.copy()
             s_fail.emit(ev("cas_fail", site, tid=txn.tid, **info))
@@ -591,7 +611,7 @@ class EvalMixin:
                     o = st.objs[obj.oid]
                     sv = o.get("status")
                     info = {"oid": obj.oid, "status": sv.members if isinstance(sv, StatusV) else self.ALL, "origin": o.origin, "okind": o.kind,
-                            "own": self.is_own(st, obj)}
+                            "own": self.is_own(st, obj), "fresh_ctx": self.root_ctx(st, obj)}
                 if ("store", attr) in MAY_RAISE:
                     s_fail = st.copy()
                     abrupt.append((s_fail, Outcome("raise", TOP, MAY_RAISE[("store", attr)])))
@@ -605,9 +625,9 @@ class EvalMixin:
                 abrupt.append((s_fail, Outcome("raise", TOP, MAY_RAISE[("store", attr)])))
             argtxt = self.desc(st, args[0]) if args else ""
             if attr == "retrieve_stage":
-                return [(st, self.mk(st, node, "stage", None, ("call", "retrieve_stage", argtxt), maybe_none=(st.loop == 0)))]
+                return [(st, self.mk(st, node, "stage", None, ("call", "retrieve_stage", argtxt, self.ctx(st)), maybe_none=(st.loop == 0)))]
             if attr in ("retrieve", "retrieve_execution_summary"):
-                return [(st, self.mk(st, node, "workflow", None, ("call", attr, argtxt)))]
+                return [(st, self.mk(st, node, "workflow", None, ("call", attr, argtxt, self.ctx(st))))]
             if attr in STAGE_LIST_METHODS:
                 return [(st, self.mk(st, node, "list", None, ("call", attr, argtxt), elem="stage", maybe_none=True))]
             if attr in ("retrieve_by_pipeline_config_id", "retrieve_by_application", "get_all_pending_workflows"):
@@ -682,7 +702,7 @@ class EvalMixin:
         if ci.name == "TransactionHelper":
             return [(st, self._helper_obj(st))]
         if ci.name in CLASS_KIND:
-            return [(st, self.mk(st, node, CLASS_KIND[ci.name], None, ("new", ci.name)))]
+            return [(st, self.mk(st, node, CLASS_KIND[ci.name], None, ("new", ci.name, self.ctx(st))))]
         return [(st, self.mk(st, node, "obj", ci.name, ("new", ci.name)))]
 
     def builtin(self, st: State, name: str, args, kwargs, node, abrupt) -> list:
